@@ -1,0 +1,9 @@
+//go:build !verif
+
+package otto
+
+type verifRT struct{}
+
+func (rt *runtime) verifStep() {}
+
+func (rt *runtime) verifSync(int) {}
